@@ -67,3 +67,22 @@ Proof.
   assert (En : next_ino (run_dumps [] (load_all (fresh (Some (Dir 493 [] [])) [x_lower] 1000))) = 1000) by (vm_compute; reflexivity).
   rewrite En in H. exact H.
 Qed.
+
+(* A third history refutes C11_full on the current code: a client sets one of the overlay's own opaque
+   markers on a merged directory.  sync_io.rs setxattr writes it to the upper directory and keeps
+   the cached node ("TODO: recreate node since setxattr may made dir opaque"): the live instance goes
+   on showing the lower children, a freshly started one hides them. *)
+Definition w3_upper := Dir 493 [] [("d", Dir 493 [] [("n", File 1 420 [110] [])])].
+Definition w3_lower := Dir 493 [] [("d", Dir 493 [] [("o", File 2 420 [111] [])])].
+Definition w3_ops := [(true, OSetxattr ["d"] "user.overlay.opaque" [121])].
+Lemma witness_opaque_marker :
+  let s := run_dumps w3_ops (load_all (fresh (Some w3_upper) [w3_lower] 1000)) in
+  ser_opt (view (load_all s)) = "d1ed(d=d1ed(n=f1a4:6e,o=f1a4:6f,),)" /\
+  ser_opt (view (load_all (restart s))) = "d1ed(d=d1ed(n=f1a4:6e,),)" /\
+  upper s = Some (Dir 493 [] [("d", Dir 493 [("user.overlay.opaque", [121])] [("n", File 1 420 [110] [])])]).
+Proof. vm_compute. repeat split; reflexivity. Qed.
+Theorem C11_full_refuted : ~ C11_full.
+Proof.
+  intros H. specialize (H (Some w3_upper) [w3_lower] 1000 w3_ops). unfold restart_same_view in H.
+  destruct witness_opaque_marker as (A & B & _). cbv zeta in A, B, H. rewrite A, B in H. discriminate.
+Qed.
